@@ -18,6 +18,10 @@ import (
 
 	z "github.com/Oudwins/zog"
 
+	"github.com/Oudwins/zog/conf"
+	"github.com/Oudwins/zog/i18n"
+	"github.com/Oudwins/zog/i18n/en"
+	"github.com/Oudwins/zog/i18n/es"
 	"verif/harness/internal/eng"
 	"verif/harness/internal/rng"
 )
@@ -272,6 +276,11 @@ func main() {
 	// RAW ENTRY POINTS: every Parse / Validate entry point of every schema kind has its own copy of the
 	// acquire / defer-release boilerplate; all of them overlap here, each result compared with the same call alone
 	{
+		// with i18n installed (as a server does once at start-up): the installed formatter is ONE closure shared by
+		// every execution of the process; calls naming different languages overlap
+		oldFmt := conf.IssueFormatter
+		i18n.SetLanguagesErrsMap(map[string]i18n.LangMap{"en": en.Map, "es": es.Map}, "en")
+		defer func() { conf.IssueFormatter = oldFmt }()
 		eps := rawEntryPoints()
 		got := make([][]string, len(eps))
 		var mu sync.Mutex
@@ -410,6 +419,19 @@ func rawEntryPoints() []entryPoint {
 		{"String.Parse+SanitizeListAndCollect", func() string {
 			var d string
 			return fmt.Sprintf("%q", z.Issues.SanitizeListAndCollect(z.String().Min(9, own).Contains("@", own).HasPrefix("Z", own).Email(own).URL(own).Parse("x", &d)))
+		}},
+		{"i18n es Struct.Parse", func() string { var d rec; return canonMap(strct.Parse(bad, &d, z.WithCtxValue(i18n.LangKey, "es"))) }},
+		{"i18n en Struct.Validate", func() string {
+			d := rec{Name: "x", Tags: []string{"a"}}
+			return canonMap(strct.Validate(&d, z.WithCtxValue(i18n.LangKey, "en")))
+		}},
+		{"i18n es String.Validate", func() string {
+			d := "ab"
+			return canonList(z.String().Min(5).Email().Validate(&d, z.WithCtxValue(i18n.LangKey, "es")))
+		}},
+		{"i18n unknown Int.Parse", func() string {
+			var d int
+			return canonList(z.Int().GT(5).Parse(3, &d, z.WithCtxValue(i18n.LangKey, "fr")))
 		}},
 		{"String.Parse", func() string { var d string; return canonList(z.String().Min(5).Email().Parse("ab", &d)) + d }},
 		{"String.Validate", func() string { d := "ab"; return canonList(z.String().Min(5).Validate(&d)) }},
